@@ -777,7 +777,7 @@ func (c *Ctx) c32Pub(d *c32db, witness bool) error {
 	if witness {
 		kind += "Witness"
 	}
-	c.Case(kind, fmt.Sprintf("(PubCase %d %s %s)", base, ListOf(evs), ListOf(obs)), J{"managed": d.managed, "history": summary})
+	c.Case(kind, fmt.Sprintf("(PubCase %s %d %s %s)", Bool(c32UserKeyLookup()), base, ListOf(evs), ListOf(obs)), J{"managed": d.managed, "history": summary})
 	return nil
 }
 
@@ -867,4 +867,45 @@ func runC32(c *Ctx) error {
 		}
 	}
 	return nil
+}
+
+// c32UserKeyLookup reports what the implementation does NOW about finding F13: it replays the
+// witness (subscriber with prefix "a\xff", one write of key "a") on a scratch in-memory DB and
+// returns true iff the subscriber receives nothing (the trie is queried with the user key).
+var c32FixDetected *bool
+
+func c32UserKeyLookup() bool {
+	if c32FixDetected != nil {
+		return *c32FixDetected
+	}
+	res := false
+	db, err := badger.Open(badger.DefaultOptions("").WithInMemory(true).WithLoggingLevel(badger.ERROR))
+	if err == nil {
+		ctx, cancel := context.WithCancel(context.Background())
+		got := make(chan int, 16)
+		ready := make(chan struct{})
+		go func() {
+			close(ready)
+			_ = db.Subscribe(ctx, func(kvs *badger.KVList) error {
+				got <- len(kvs.Kv)
+				return nil
+			}, []pb.Match{{Prefix: []byte("a\xff")}})
+		}()
+		<-ready
+		// wait until the subscriber is registered
+		for i := 0; i < 200 && badger.VerifNumSubscribers(db) == 0; i++ {
+			time.Sleep(5 * time.Millisecond)
+		}
+		_ = db.Update(func(txn *badger.Txn) error { return txn.Set([]byte("a"), []byte("v")) })
+		select {
+		case <-got:
+			res = false
+		case <-time.After(300 * time.Millisecond):
+			res = true
+		}
+		cancel()
+		db.Close()
+	}
+	c32FixDetected = &res
+	return res
 }
